@@ -337,7 +337,7 @@ func c07CodeDevicePAR(c *run.Ctx, r *rand.Rand, id string, k c07cfg, w *world.Wo
 		sort.SliceStable(evs, func(a, b int) bool { return evs[a].at.Before(evs[b].at) })
 		for _, e := range evs {
 			if d := e.at.Sub(time.Now()); d > 0 {
-				time.Sleep(d)
+				world.Sleep(d)
 			}
 			hist = append(hist, fmt.Sprintf("t0+%s: present %s (offset %s)", time.Since(t0), e.what, off))
 			switch e.what {
@@ -390,7 +390,7 @@ func c07Assertions(c *run.Ctx, r *rand.Rand, id string, k c07cfg, w *world.World
 		if out.Err == nil {
 			c.Violate(run.Violation{Kind: "nbf-ignored", Key: "nbf-ignored jwt-bearer", Case: id, Detail: "assertion accepted before its nbf"})
 		}
-		time.Sleep(exp.Add(off).Sub(time.Now()))
+		world.Sleep(exp.Add(off).Sub(time.Now()))
 		hist = append(hist, fmt.Sprintf("assertions with exp=t0+%s presented at offset %s", life, off))
 		out = w.Token(url.Values{"grant_type": {"urn:ietf:params:oauth:grant-type:jwt-bearer"}, "assertion": {ba}, "scope": {"fosite"}}, world.Basic("conf-a", "secret-of-a"))
 		c07Judge(c, id, "jwt_bearer_assertion", off, out.Err == nil, world.ErrDetail(out.Err), hist)
